@@ -24,14 +24,15 @@ Section Tape.
 
   Record slot := { s_shape : Sh; s_dev : nat; s_val : option V; s_grad : option V }.
   Record opinfo := { o_op : Op; o_args : list (nat * nat); o_rets : list slot }.
-  (* one Graph object; g_log = operator ids whose Operator::forward ran, in call order
-     (the call counters of the harness) *)
-  Record gstate := { g_ops : list opinfo; g_log : list nat }.
+  (* one Graph object; g_log = operator ids whose Operator::forward ran, in call order;
+     g_blog = operator ids whose Operator::backward ran, in call order (both are the call
+     counters of the harness; they are not state of the real Graph) *)
+  Record gstate := { g_ops : list opinfo; g_log : list nat; g_blog : list nat }.
   (* what lives outside the graphs: Parameter values / gradients, the random stream position
      of every device *)
   Record env := { e_pval : nat -> V; e_pgrad : nat -> V; e_pos : nat -> N }.
 
-  Definition empty_graph : gstate := {| g_ops := []; g_log := [] |}.
+  Definition empty_graph : gstate := {| g_ops := []; g_log := []; g_blog := [] |}.
 
   Definition set_val (s : slot) (v : option V) : slot :=
     {| s_shape := s_shape s; s_dev := s_dev s; s_val := v; s_grad := s_grad s |}.
@@ -40,7 +41,7 @@ Section Tape.
   Definition set_rets (oi : opinfo) (r : list slot) : opinfo :=
     {| o_op := o_op oi; o_args := o_args oi; o_rets := r |}.
   Definition set_ops (g : gstate) (ops : list opinfo) : gstate :=
-    {| g_ops := ops; g_log := g_log g |}.
+    {| g_ops := ops; g_log := g_log g; g_blog := g_blog g |}.
 
   Definition get_slot (g : gstate) (a : nat * nat) : option slot :=
     match nth_error (g_ops g) (fst a) with
